@@ -30,7 +30,7 @@ def slices(tier):
 
 
 def shards(tier):
-    out = []
+    out = [('history', 0, 0)]
     for name, (_, u, _, _) in slices(tier).items():
         per = max(1, len(u) // 48)
         for i in range(0, len(u), per):
@@ -260,8 +260,48 @@ def order_check(alpha, s, n, names, flagbits, st):
                      {'flags': bool(flags)})
 
 
+def history_world():
+    sh = space.from_json
+    mk = lambda text: alg.fresh_sig(SHAPES_BY_TEXT[text])
+    return dict((t, mk(t)) for t in SHAPES_BY_TEXT)
+
+
+def _shape(*params):
+    return tuple(params)
+
+
+from vf.space import PO as _PO, POK as _POK, VA as _VA, KWO as _KWO, VK as _VK  # noqa: E402
+SHAPES_BY_TEXT = {
+    'A': _shape(('k', _POK, False), ('b', _POK, False)),
+    'B': _shape(('a', _POK, False), ('k', _KWO, False)),
+    'C': _shape(('a', _POK, False), ('b', _POK, True), ('args', _VA, False), ('k', _KWO, False), ('opt', _KWO, True)),
+    'D': _shape(('a', _POK, False), ('b', _POK, False), ('c', _POK, False), ('kwargs', _VK, False)),
+}
+
+
+def history_ops():
+    ops = []
+    for t in sorted(SHAPES_BY_TEXT):
+        names = [p[0] for p in SHAPES_BY_TEXT[t] if p[1] not in (_VA, _VK)]
+        for n in (0, 1):
+            ops.append(('mask(%s, %d)' % (t, n), lambda w, t=t, n=n: S.mask(w[t], n)))
+            for nm in names:
+                ops.append(('mask(%s, %d, %r)' % (t, n, nm), lambda w, t=t, n=n, nm=nm: S.mask(w[t], n, nm)))
+                ops.append(('mask(%s, %d, %r, hide_args=True)' % (t, n, nm),
+                            lambda w, t=t, n=n, nm=nm: S.mask(w[t], n, nm, hide_args=True)))
+        ops.append(('mask(%s, hide_args=True)' % t, lambda w, t=t: S.mask(w[t], hide_args=True)))
+        ops.append(('mask(%s, hide_kwargs=True)' % t, lambda w, t=t: S.mask(w[t], hide_kwargs=True)))
+    return ops
+
+
 def shard(tier, sh):
     name, i0, i1 = sh
+    if name == 'history':
+        from vf import reuse
+        st = runner.Stats()
+        reuse.pairs(history_world, history_ops(), st, {'op': 'history'})
+        st.c['cases'] = st.c.get('states', 0)
+        return st
     pool, u, maxlen, with_flags = slices(tier)[name]
     alpha = alphabet(pool)
     st = runner.Stats()
@@ -318,6 +358,11 @@ def run(tier, seed):
 
 def replay(art):
     case = art['case']
+    if case.get('op') == 'history':
+        from vf import reuse
+        st = runner.Stats()
+        reuse.pairs(history_world, [o for o in history_ops() if o[0] in (case['first'], case['second'])], st, {'op': 'history'})
+        return [v['detail'] for v in st.viol] or None
     names, nmax = case['alphabet']
     alpha = Alphabet(tuple(names), nmax)
     s = space.from_json(case['sig'])
